@@ -113,7 +113,7 @@ PROPS = {
     },
     "C18": {
         "runs": [
-            {"harness": "H_C18_yaml", "reach": ["valid", "invalid"], "quick": {"n": 4}, "thorough": {"n": 6}},
+            {"harness": "H_C18_yaml", "reach": ["valid", "invalid"], "quick": {"n": 4}, "thorough": {"n": 6}, "args": ["-sample-every", "11"], "validate": {"quick": 5, "thorough": 10}},
         ],
         "bounds": {"quick": "documents: arbitrary bytes <= 4, and five part-concrete shapes (multi-document stream, block scalar with a --- line, comment, "
                             "header-like flow sequence, trailing blank lines) with symbolic leaves; string and []byte input; final newline present/absent",
